@@ -864,50 +864,535 @@ def model_copy_program(run, env):
         report(run, "interference:Model.copy:mutating-the-copy-changes-the-original", dict(env=env.desc))
 
 
+# ------------------------------------------------------------------------------------ trees
+def tree_imports():
+    from renormalizer.tn import TTNS, TTNO, BasisTree
+    from renormalizer.tn.node import TreeNodeBasis
+    from renormalizer.tn.gs import optimize_ttns
+    return TTNS, TTNO, BasisTree, TreeNodeBasis, optimize_ttns
+
+
+class TSnap:
+    def __init__(self, t):
+        nodes = t.node_list
+        self.arrs = [np.array(n.tensor) for n in nodes]
+        self.tensors = tuple((a.shape, str(a.dtype), a.tobytes()) for a in self.arrs)
+        self.qn = tuple(np.asarray(n.qn).tobytes() for n in nodes)
+        idx = {id(n): i for i, n in enumerate(nodes)}
+        self.struct = tuple((idx.get(id(n.parent), -1) if n.parent is not None else None, tuple(idx.get(id(c), -1) for c in n.children))
+                            for n in nodes)
+        self.coeff_val = getattr(t, "coeff", None)
+        self.coeff = repr(complex(t.coeff)) if hasattr(t, "coeff") else None
+        self.cfg = cfg_items(t)
+        self.obj = t
+        self._repr = None
+
+    def dense_now(self):
+        """must be called while the object still has the snapshotted content"""
+        if self._repr is None:
+            c = self.coeff_val if self.coeff_val is not None else 1
+            self._repr = np.asarray(np.asarray(self.obj.todense()) * c, dtype=complex)
+        return self._repr
+
+    def diff(self, other):
+        d = []
+        if self.tensors != other.tensors:
+            d.append("tensors")
+        if self.coeff != other.coeff:
+            d.append("coeff")
+        if self.qn != other.qn:
+            d.append("labels")
+        if self.struct != other.struct:
+            d.append("structure")
+        if self.cfg != other.cfg:
+            d.append("config")
+        return d
+
+    def ser(self):
+        d = dict(tensors=[L.ser_arr(a) for a in self.arrs], structure=[list(map(str, x)) for x in self.struct])
+        if self.coeff_val is not None:
+            d["coeff"] = [complex(self.coeff_val).real, complex(self.coeff_val).imag]
+        return d
+
+
+def tree_observe(t):
+    c = getattr(t, "coeff", 1)
+    out = [tuple(np.array(n.tensor).tobytes() for n in t.node_list), repr(complex(c)),
+           np.asarray(np.asarray(t.todense()) * c, dtype=complex).tobytes()]
+    return tuple(out)
+
+
+TREE_METHODS = ["tdvp_vmf", "prop_and_compress_tdrk4", "tdvp_ps", "tdvp_ps2"]
+
+
+class TreeEnv:
+    def __init__(self, rng, quick):
+        TTNS, TTNO, BasisTree, TreeNodeBasis, _ = tree_imports()
+        self.rng = rng
+        self.kind = str(rng.choice(["spin", "spin", "elec"]))
+        nb = int(rng.integers(3, 6))
+        # basis sets
+        bdesc = []
+        for i in range(nb):
+            if self.kind == "spin":
+                bdesc.append(["spin", f"s{i}"] if rng.random() < 0.7 else ["sho", f"v{i}", 1.0, int(rng.integers(2, 4))])
+            else:
+                bdesc.append(["se", f"e{i}"] if (rng.random() < 0.6 or i < 2) else ["sho", f"v{i}", 1.0, int(rng.integers(2, 4))])
+        basis = L.build_basis(bdesc)
+        # group into nodes (1-2 basis sets per node), random parent array, optional dummy root
+        groups = []
+        i = 0
+        while i < nb:
+            k = 2 if (rng.random() < 0.25 and i + 1 < nb) else 1
+            groups.append(list(range(i, i + k)))
+            i += k
+        dummy_root = bool(rng.random() < 0.2) and len(groups) >= 2
+        nodes = []
+        parents = []
+        if dummy_root:
+            nodes.append(TreeNodeBasis())
+            parents.append(None)
+        for g in groups:
+            nodes.append(TreeNodeBasis([basis[j] for j in g]))
+            if len(nodes) == 1:
+                parents.append(None)
+            else:
+                cand = [k for k in range(len(nodes) - 1) if len(nodes[k].children) < 3]
+                pk = cand[int(rng.integers(0, len(cand)))]
+                if rng.random() < 0.4:
+                    pk = len(nodes) - 2 if (len(nodes) - 2) in cand else pk    # chain-like stretches
+                nodes[pk].add_child(nodes[-1])
+                parents.append(pk)
+        if len(nodes) < 2:
+            raise RuntimeError("tree too small")
+        self.basis = BasisTree(nodes[0])
+        self.desc = dict(kind="tree-" + self.kind, basis=bdesc, groups=groups, parents=parents, dummy_root=dummy_root)
+        terms = []
+        dofs = [d[1] for d in bdesc]
+        se = [d[1] for d in bdesc if d[0] == "se"]
+        for d in bdesc:
+            if d[0] == "spin":
+                terms += [Op("Z", d[1], float(rng.choice([0.3, -0.6, 1.0]))), Op("X", d[1], float(rng.choice([0.2, 0.5])))]
+            elif d[0] == "sho":
+                terms += [Op(r"b^\dagger b", d[1], d[2]), Op("x", d[1], 0.2)]
+            else:
+                terms.append(Op(r"a^\dagger a", d[1], float(rng.choice([0.2, 0.5, 1.0]))))
+        for a in range(len(bdesc) - 1):
+            x, y = bdesc[a], bdesc[a + 1]
+            if x[0] == "spin" and y[0] == "spin":
+                terms.append(Op("Z Z", [x[1], y[1]], 0.4))
+            elif x[0] == "se" and y[0] == "se":
+                terms.append(Op(r"a^\dagger a", [x[1], y[1]], 0.25))
+                terms.append(Op(r"a^\dagger a", [y[1], x[1]], 0.25))
+            elif x[0] == "se" and y[0] == "sho":
+                terms.append(Op(r"a^\dagger a", x[1]) * Op("x", y[1]) * 0.3)
+            elif x[0] == "spin" and y[0] == "sho":
+                terms.append(Op("Z", x[1]) * Op("x", y[1]) * 0.3)
+        self.terms = terms
+        self.objs = {}
+        self.objs["H"] = TTNO(self.basis, terms)
+        self.objs["O1"] = TTNO(self.basis, terms[: max(1, len(terms) // 2)])
+        qntot = 0 if self.kind == "spin" else int(rng.integers(1, max(2, len(se))))
+        self.qntot = qntot
+        for k in range(2):
+            L.seed_global(rng)
+            with np.errstate(all="raise"):
+                t = TTNS.random(self.basis, qntot, int(rng.integers(2, 5)), percent=1.0)
+            if rng.random() < 0.4:
+                t = t.scale(complex(0.6, 0.8))
+            if rng.random() < 0.4:
+                t.coeff = complex(0.5, -0.5) if rng.random() < 0.5 else -2.0
+            self.objs[f"T{k}"] = t
+        self.log = []
+
+    def states(self):
+        TTNS = tree_imports()[0]
+        return [k for k, v in self.objs.items() if isinstance(v, TTNS)]
+
+    def ops(self):
+        TTNO = tree_imports()[1]
+        return [k for k, v in self.objs.items() if isinstance(v, TTNO)]
+
+    def pick(self, names):
+        return names[int(self.rng.integers(0, len(names)))]
+
+
+def tree_ops(env):
+    TTNS, TTNO, BasisTree, TreeNodeBasis, optimize_ttns = tree_imports()
+    rng = env.rng
+
+    def op_copy():
+        a = env.pick(env.states())
+        which = int(rng.integers(0, 3))
+        call = [lambda: env.objs[a].copy(), lambda: env.objs[a].metacopy(), lambda: env.objs[a].to_complex()][which]
+        return ["TTNS.copy", "TTNS.metacopy", "TTNS.to_complex"][which], [a], False, call, {}
+
+    def op_scale():
+        a = env.pick(env.states())
+        c = [2.0, -0.5, complex(0.3, 0.4)][int(rng.integers(0, 3))]
+        return "TTNS.scale", [a], False, lambda: env.objs[a].scale(c), dict(c=repr(c))
+
+    def op_add():
+        a, b = env.pick(env.states()), env.pick(env.states())
+        x, y = env.objs[a], env.objs[b]
+        call = (lambda: x.add(y)) if rng.random() < 0.5 else (lambda: x + y)
+        return "TTNS.add", [a, b], False, call, dict(same=a == b)
+
+    def op_apply():
+        o, a = env.pick(env.ops()), env.pick(env.states())
+        O, T = env.objs[o], env.objs[a]
+        how = int(rng.integers(0, 4))
+        call = [lambda: O.apply(T), lambda: O @ T, lambda: O.apply(T, canonicalise=True), lambda: O.contract(T)][how]
+        return ["TTNO.apply", "TTNO.__matmul__", "TTNO.apply(canonicalise)", "TTNO.contract"][how], [o, a], False, call, {}
+
+    def op_measure():
+        o, a = env.pick(env.ops()), env.pick(env.states())
+        O, T = env.objs[o], env.objs[a]
+        which = int(rng.integers(0, 6))
+        n = len(T.node_list)
+        i, j = sorted(rng.choice(n, size=2, replace=False).tolist())
+        term = env.terms[int(rng.integers(0, len(env.terms)))]
+        if which == 0:
+            call = lambda: T.expectation(O) and None
+            nm = "TTNS.expectation"
+        elif which == 1:
+            call = lambda: T.expectation(term) and None
+            nm = "TTNS.expectation(Op)"
+        elif which == 2:
+            def call():
+                T.calc_1site_rdm()
+                T.calc_1site_entropy()
+                T.calc_1site_rdm(i)
+            nm = "TTNS.rdm1/entropy1"
+        elif which == 3:
+            def call():
+                T.calc_2site_rdm([(i, j)])
+                T.calc_2site_entropy([(i, j)])
+            nm = "TTNS.rdm2/entropy2"
+        elif which == 4:
+            def call():
+                T.calc_bond_entropy()
+                T.calc_bond_singular_values()
+            nm = "TTNS.bond-entropy"
+        else:
+            def call():
+                T.todense()
+                O.todense()
+                _ = T.norm, T.ttns_norm, T.bond_dims, T.qntot
+            nm = "TTNS.todense/norm"
+        return nm, [a, o], False, call, {}
+
+    def op_copy_then_mutate():
+        a = env.pick(env.states())
+        T = env.objs[a]
+        which = int(rng.integers(0, 5))
+        kind = str(rng.choice(["ttns_only", "ttns_and_coeff", "ttns_norm_to_coeff"]))
+
+        def call():
+            c = T.copy()
+            if which == 0:
+                c.canonicalise()
+            elif which == 1:
+                c.canonicalise()
+                c.compress(temp_m_trunc=1)
+            elif which == 2:
+                c.normalize(kind)
+            elif which == 3:
+                c.scale(complex(0.0, 2.0), inplace=True)
+            else:
+                c.to_complex(inplace=True)
+                c.scale(-3.0, inplace=True)
+            return c
+        return ["TTNS.copy().canonicalise", "TTNS.copy().compress", "TTNS.copy().normalize", "TTNS.copy().scale(inplace)",
+                "TTNS.copy().to_complex(inplace)"][which], [a], False, call, {}
+
+    def op_evolve(method=None, imag=None, a=None):
+        if a is None:
+            a = env.pick(env.states())
+        T = env.objs[a]
+        o = "H"
+        if method is None:
+            method = TREE_METHODS[int(rng.integers(0, 4))]
+        if imag is None:
+            imag = bool(rng.random() < 0.5)
+        step = float(rng.choice([0.02, 0.05]))
+        tau = -1j * step if imag else step
+        T.evolve_config = EvolveConfig(getattr(EvolveMethod, method), force_ovlp=False, reg_epsilon=1e-4, ivp_rtol=1e-3, ivp_atol=1e-5)
+        mode = int(rng.integers(0, 2))
+        T.compress_config = CompressConfig(CompressCriteria.fixed, max_bonddim=int(rng.integers(1, 4)) if mode == 0 else 16)
+        norm = bool(rng.random() < 0.7)
+        extra = dict(method=method, imag=imag, tau=repr(tau), normalize=norm, compress=mode)
+        return f"TTNS.evolve:{method}", [a, o], False, lambda: T.evolve(env.objs[o], tau, normalize=norm), extra
+
+    def op_optimize():
+        a = env.pick(env.states())
+
+        def call():
+            g = env.objs[a].copy()
+            optimize_ttns(g, env.objs["H"], procedure=[[4, 0.3], [4, 0]])
+            return g
+        return "optimize_ttns(copy)", [a, "H"], False, call, {}
+
+    def op_from_tensors():
+        a = env.pick(env.states())
+        T = env.objs[a]
+
+        def call():
+            v = np.concatenate([n.tensor[T.get_qnmask(n)].ravel() for n in T.node_list])
+            return TTNS.from_tensors(T, v * 2.0)
+        return "TTNS.from_tensors", [a], False, call, {}
+
+    env.op_evolve = op_evolve
+    return [op_copy, op_copy, op_scale, op_add, op_add, op_apply, op_apply, op_measure, op_measure, op_measure,
+            op_copy_then_mutate, op_copy_then_mutate, op_evolve, op_evolve, op_evolve, op_optimize, op_from_tensors]
+
+
+def run_tree_call(run, env, thunk):
+    TTNS = tree_imports()[0]
+    prep = thunk()
+    if prep is None:
+        return
+    name, args, regauge_ok, call, extra = prep
+    before = {k: TSnap(v) for k, v in env.objs.items()}
+    for k in args:       # dense representation of the arguments while they are still intact
+        try:
+            before[k].dense_now()
+        except Exception:
+            pass
+    tc = time.time()
+    try:
+        with Watchdog(WATCHDOG[0]):
+            result = call()
+        exc = None
+    except Exception as e:
+        exc = e
+        result = None
+    TIMES[name] = TIMES.get(name, 0.0) + time.time() - tc
+    if time.time() - tc > 2.0:
+        SLOW.append((name, round(time.time() - tc, 1), dict(extra), [int(b) for b in env.objs[args[0]].bond_dims], env.kind))
+    run.count(f"op:{name}")
+    if exc is not None:
+        run.count(f"rejected:{name}:{type(exc).__name__}")
+    env.log.append(dict(op=name, args=args, **extra))
+    after = {k: TSnap(v) for k, v in env.objs.items()}
+    returned_input = result is not None and any(result is o for o in env.objs.values())
+    for k in before:
+        d = before[k].diff(after[k])
+        if not d:
+            continue
+        role = "arg" if k in args else "bystander"
+        if exc is not None:
+            run.count(f"changed-after-exception:{name}:{'+'.join(d)}")
+            continue
+        if "tensors" not in d and "coeff" not in d and "structure" not in d:
+            run.count(f"meta-changed:{name}:{role}:{'+'.join(d)}")
+            continue
+        change = None
+        if before[k]._repr is not None:
+            try:
+                now = after[k].dense_now()
+                if now.shape == before[k]._repr.shape:
+                    change = float(np.max(np.abs(now - before[k]._repr)))
+            except Exception:
+                pass
+        replay = dict(env=env.desc, op=name, args=args, changed=k, role=role, parts=d, extra=extra, log=env.log[-6:],
+                      before=before[k].ser(), after=after[k].ser(), repr_change=change, returned_input=returned_input)
+        if (name.startswith("TTNS.evolve:") and extra.get("imag") and role == "arg" and returned_input
+                and result is env.objs[k]):
+            report(run, SIG_D6, replay)
+            continue
+        same_repr = change is not None and change <= REL * max(1e-300, float(np.max(np.abs(before[k]._repr), initial=0.0)))
+        if "structure" in d:
+            report(run, f"{name}:{role}:tree-structure-changed", replay)
+        elif same_repr:
+            report(run, f"{name}:{role}:input-rewritten(repr-equal-up-to-rounding)", replay)
+        elif "coeff" in d and "tensors" not in d:
+            report(run, f"{name}:{role}:input-coeff", replay)
+        else:
+            report(run, f"{name}:{role}:input-changed", replay)
+    if result is not None and isinstance(result, TTNS) and exc is None:
+        if returned_input:
+            if not (name.startswith("TTNS.evolve:") and extra.get("imag")):
+                report(run, f"{name}:returns-an-input-object", dict(env=env.desc, op=name, args=args, extra=extra))
+        else:
+            # observation: buffers shared between the result and live objects
+            shared = False
+            for o in env.objs.values():
+                for n1 in o.node_list:
+                    for n2 in result.node_list:
+                        if np.shares_memory(n1.tensor, n2.tensor):
+                            shared = True
+            if shared:
+                run.count(f"shared-buffer:{name}")
+            try:
+                ok = bool(np.all(np.isfinite(np.asarray(result.todense())))) and max(result.bond_dims) <= 16
+            except Exception:
+                ok = False
+            if ok:
+                env.objs[f"T{int(rng_slot(env))}"] = result
+
+
+def rng_slot(env):
+    return env.rng.integers(2, 5)
+
+
+def tree_program(run, env):
+    TTNS = tree_imports()[0]
+    rng = env.rng
+    a_name = env.pick(env.states())
+    a = env.objs[a_name]
+    p = str(rng.choice(["copy", "to_complex", "scale", "scale1", "add", "applied", "metacopy", "evolve", "from_tensors", "copycopy"]))
+    try:
+        if p == "copy":
+            b = a.copy()
+        elif p == "copycopy":
+            b = a.copy().copy()
+        elif p == "to_complex":
+            b = a.to_complex()
+        elif p == "scale":
+            b = a.scale(-0.5)
+        elif p == "scale1":
+            b = a.scale(1.0)
+        elif p == "add":
+            b = a.add(a)
+        elif p == "applied":
+            b = env.objs[env.pick(env.ops())].apply(a)
+        elif p == "metacopy":
+            b = a.metacopy()
+        elif p == "from_tensors":
+            v = np.concatenate([n.tensor[a.get_qnmask(n)].ravel() for n in a.node_list])
+            b = TTNS.from_tensors(a, v)
+        else:
+            a.evolve_config = EvolveConfig(EvolveMethod.tdvp_ps if rng.random() < 0.5 else EvolveMethod.prop_and_compress_tdrk4, force_ovlp=False)
+            a.compress_config = CompressConfig(CompressCriteria.fixed, max_bonddim=16)
+            b = a.evolve(env.objs["H"], 0.03)
+    except Exception as e:
+        run.count(f"rejected:tree-program:{p}:{type(e).__name__}")
+        return
+    if b is a:
+        return
+    m = str(rng.choice(["scale_inplace", "normalize", "canonicalise", "compress", "to_complex_inplace", "assign", "qn_inplace"]))
+    target_is_b = bool(rng.random() < 0.6)
+    t, other = (b, a) if target_is_b else (a, b)
+    try:
+        o_before = tree_observe(other)
+        if m == "scale_inplace":
+            t.scale(2.5 if rng.random() < 0.5 else complex(0.0, -3.0), inplace=True)
+        elif m == "normalize":
+            t.normalize(str(rng.choice(["ttns_only", "ttns_and_coeff", "ttns_norm_to_coeff"])))
+        elif m == "canonicalise":
+            t.canonicalise()
+        elif m == "compress":
+            t.canonicalise()
+            t.compress(temp_m_trunc=1)
+        elif m == "to_complex_inplace":
+            t.to_complex(inplace=True)
+            t.scale(complex(1.0, 1.0), inplace=True)
+        elif m == "assign":
+            n = t.node_list[int(rng.integers(0, len(t.node_list)))]
+            n.tensor = np.array(n.tensor) * 0.25
+        else:
+            # every node of the mutated object goes through scale + normalise + canonicalise
+            t.scale(-1.5, inplace=True)
+            t.canonicalise()
+            t.normalize("ttns_norm_to_coeff")
+        o_after = tree_observe(other)
+    except Exception as e:
+        run.count(f"rejected:tree-program:{p}:{m}:{type(e).__name__}")
+        return
+    run.count(f"tree-program:{p}:{m}")
+    if o_before != o_after:
+        which = "derived-changes-source" if target_is_b else "source-changes-derived"
+        report(run, f"interference:TTNS:{p}:{m}:{which}",
+               dict(env=env.desc, source=a_name, producer=p, mutator=m, mutated="derived" if target_is_b else "source"))
+
+
 # ------------------------------------------------------------------------------------ driver
 def search(run, rng, quick):
     SEEN.clear()
+    TIMES.clear()
+    del SLOW[:]
     t0 = time.time()
-    budget = 45.0 if quick else 520.0
+    budget = 46.0 if quick else 540.0
+    WATCHDOG[0] = 4.0 if quick else 20.0
     nev = 0
     distinct = set()
-    while time.time() - t0 < budget * 0.6:
-        try:
-            env = ChainEnv(rng, quick)
-        except Exception as e:
-            run.count(f"rejected:env:{type(e).__name__}")
-            continue
-        run.count(f"env:{env.kind}")
-        ops = chain_ops(env)
-        # systematic part: every evolution scheme in real and imaginary time, the closed-form propagator with
-        # zero and non-zero offset, for a pure state and a density operator
-        sweep = []
-        for meth in EVOLVE_METHODS:
-            for imag in (False, True):
-                tgt = "S0" if rng.random() < 0.7 else env.pick(env.states())
-                sweep.append(lambda meth=meth, imag=imag, tgt=tgt: env.op_evolve(meth, imag, tgt))
-        if env.holstein:
-            for h in ("H0", "H1"):
-                for tgt in ("S1", "R0"):
-                    sweep.append(lambda h=h, tgt=tgt: env.op_evolve_exact(tgt, h))
-        for th in sweep:
-            run_chain_call(run, env, th)
-            nev += 1
-            if env.log:
-                distinct.add((env.kind, env.log[-1]["op"], str(sorted(env.log[-1].items()))))
-        for _ in range(14 if quick else 24):
-            th = ops[int(rng.integers(0, len(ops)))]
-            run_chain_call(run, env, th)
-            nev += 1
-            if env.log:
-                distinct.add((env.kind, env.log[-1]["op"], str(sorted(env.log[-1].items()))))
-            if time.time() - t0 > budget * 0.6:
-                break
-        for _ in range(6 if quick else 12):
-            chain_program(run, env)
-            nev += 1
-        model_copy_program(run, env)
-        run.sample(dict(env=env.desc, ops=[l["op"] for l in env.log][:10]))
+
+    def note(env):
+        if env.log:
+            distinct.add((env.kind, env.log[-1]["op"], str(sorted(env.log[-1].items()))))
+
+    # alternate chain and tree environments; chains get ~60 % of the time
+    t_chain = t_tree = 0.0
+    while time.time() - t0 < budget:
+        do_tree = t_tree * 0.6 < t_chain * 0.4
+        ts = time.time()
+        if not do_tree:
+            try:
+                env = ChainEnv(rng, quick)
+            except Exception as e:
+                run.count(f"rejected:env:{type(e).__name__}")
+                t_chain += time.time() - ts
+                continue
+            run.count(f"env:{env.kind}")
+            ops = chain_ops(env)
+            # systematic part: every evolution scheme in real and imaginary time, the closed-form propagator with
+            # zero and non-zero offset, for a pure state and a density operator
+            sweep = []
+            for meth in EVOLVE_METHODS:
+                for imag in (False, True):
+                    tgt = "S0" if rng.random() < 0.7 else env.pick(env.states())
+                    sweep.append(lambda meth=meth, imag=imag, tgt=tgt: env.op_evolve(meth, imag, tgt))
+            if env.holstein:
+                for h in ("H0", "H1"):
+                    for tgt in ("S1", "R0"):
+                        sweep.append(lambda h=h, tgt=tgt: env.op_evolve_exact(tgt, h))
+            order = rng.permutation(len(sweep))
+            calls = [sweep[i] for i in order] + [ops[int(rng.integers(0, len(ops)))] for _ in range(14 if quick else 30)]
+            for th in calls:
+                if time.time() - t0 > budget:
+                    break
+                run_chain_call(run, env, th)
+                nev += 1
+                note(env)
+            for _ in range(6 if quick else 12):
+                if time.time() - t0 > budget:
+                    break
+                chain_program(run, env)
+                nev += 1
+            model_copy_program(run, env)
+            run.sample(dict(env=env.desc, ops=[l["op"] for l in env.log][:10]))
+            t_chain += time.time() - ts
+        else:
+            try:
+                env = TreeEnv(rng, quick)
+            except Exception as e:
+                run.count(f"rejected:tree-env:{type(e).__name__}")
+                t_tree += time.time() - ts
+                continue
+            run.count(f"env:tree-{env.kind}")
+            ops = tree_ops(env)
+            sweep = []
+            for meth in TREE_METHODS:
+                for imag in (False, True):
+                    tgt = "T0" if rng.random() < 0.7 else env.pick(env.states())
+                    sweep.append(lambda meth=meth, imag=imag, tgt=tgt: env.op_evolve(meth, imag, tgt))
+            order = rng.permutation(len(sweep))
+            calls = [sweep[i] for i in order] + [ops[int(rng.integers(0, len(ops)))] for _ in range(10 if quick else 24)]
+            for th in calls:
+                if time.time() - t0 > budget:
+                    break
+                run_tree_call(run, env, th)
+                nev += 1
+                note(env)
+            for _ in range(6 if quick else 12):
+                if time.time() - t0 > budget:
+                    break
+                tree_program(run, env)
+                nev += 1
+            run.sample(dict(env=env.desc, ops=[l["op"] for l in env.log][:10]))
+            t_tree += time.time() - ts
     run.cov["evaluations"] = run.cov.get("evaluations", 0) + nev
     run.cov["distinct_nontrivial"] = len(distinct)
-    run.cov["rule"] = "distinct (environment kind, operation, arguments/options) watched calls on states with bond dimension > 1"
+    run.cov["rule"] = ("distinct (environment kind, operation, arguments/options) watched calls; every environment holds states "
+                       "with bond dimension > 1 and runs every evolution scheme in real and imaginary time")
